@@ -27,7 +27,6 @@ func (ec *evalCtx) evalCall(call *ast.CallExpr) Value {
 			return ec.evalBuiltin(b.Name(), call)
 		}
 	}
-	ec.fc.applyUses(ec.st, "before "+ec.fc.callTag[call])
 	var recv Value
 	if sel, ok := ast.Unparen(call.Fun).(*ast.SelectorExpr); ok {
 		if s := ec.info.Selections[sel]; s != nil && s.Kind() == types.MethodVal {
@@ -97,6 +96,12 @@ func (ec *evalCtx) evalCall(call *ast.CallExpr) Value {
 			}
 		}
 	}
+	// lemma uses / ghost asserts registered "before <call>" see the evaluated arguments as arg0, arg1, ...
+	argScope := map[string]Value{}
+	for i, a := range args {
+		argScope[fmt.Sprintf("arg%d", i)] = a
+	}
+	ec.fc.applyUsesScope(ec.st, "before "+ec.fc.callTag[call], argScope)
 	if ec.fc.gen != nil {
 		ec.genHook(call, calleeFunc(ec.info, call), recv, args)
 	}
